@@ -26,9 +26,11 @@ use crate::sim::rng::{subseed, Fnv, Rng};
 use crate::sim::{clock, tapmon};
 
 pub const ADMIN_A: u64 = 0xA11CE;
-pub const ADMIN_B: u64 = 0xB0B;
+/// Same node ids in both fabrics on purpose: a session / resumption record of one fabric
+/// must not be mistaken for one of the other just because the ids agree.
+pub const ADMIN_B: u64 = ADMIN_A;
 pub const DEV_NODE_A: u64 = 0xD0A;
-pub const DEV_NODE_B: u64 = 0xD0B;
+pub const DEV_NODE_B: u64 = DEV_NODE_A;
 
 /// Which session context a command is issued from.
 #[derive(Clone, Copy, Debug, PartialEq, Eq)]
@@ -183,6 +185,17 @@ fn via_of(c: &CtlState, ctx: Ctx) -> Option<Via> {
 /// Run a scenario. The device is (re)built for every incarnation; the controller's Matter
 /// object lives for the whole scenario.
 pub fn run_world(p: &WorldParams) -> WorldResult {
+    run_world_kv(p).0
+}
+
+/// Like `run_world`, also handing back the recording KV store (operation log + snapshots).
+pub fn run_world_kv(p: &WorldParams) -> (WorldResult, SimKv) {
+    let simkv = SimKv::new();
+    let r = run_world_inner(p, simkv.clone());
+    (r, simkv)
+}
+
+fn run_world_inner(p: &WorldParams, simkv: SimKv) -> WorldResult {
     clock::reset(1_000_000);
     let mut rng = Rng::new(p.seed);
     let crypto_c = node::crypto(rng.fork());
@@ -226,7 +239,6 @@ pub fn run_world(p: &WorldParams) -> WorldResult {
             }
         })));
     }
-    let simkv = SimKv::new();
     simkv.fail_at(p.kv_fail_at);
     let dev_addr = hub.addr(1);
 
@@ -572,7 +584,14 @@ async fn do_step<C: Crypto, G: Crypto>(
             None => no_ctx,
         },
         Step::Complete { ctx } => match via(*ctx) {
-            Some(v) => ctl.commissioning_complete(v).await,
+            Some(v) => {
+                let o = ctl.commissioning_complete(v).await;
+                if o.success() {
+                    // the device tore the PASE session down; so does the commissioner
+                    ctl.forget_pase();
+                }
+                o
+            }
             None => no_ctx,
         },
         Step::AddWifi { ctx, n } => match via(*ctx) {
@@ -629,7 +648,11 @@ async fn do_step<C: Crypto, G: Crypto>(
             None => no_ctx,
         },
         Step::OpenWindow { ctx } => match via(*ctx) {
-            Some(v) => ctl.open_basic_window(v, 300).await,
+            Some(v) => {
+                // a commissioner starting over through a new window starts a new PASE session
+                ctl.forget_pase();
+                ctl.open_basic_window(v, 300).await
+            }
             None => no_ctx,
         },
         Step::Revoke { ctx } => match via(*ctx) {
@@ -643,9 +666,12 @@ async fn do_step<C: Crypto, G: Crypto>(
         Step::Restart => Out::Ok(0),
         Step::CtlForgetSessions => {
             // Remove the controller's secure sessions to the device (not its resumption cache)
+            // ... except the ones parked in a save slot (they are the "old sessions" whose
+            // later use is the point of saving them)
+            let keep: Vec<u32> = cst.borrow().saved.values().copied().collect();
             let ids: Vec<u32> = node::snapshot(ctl.matter)
                 .into_iter()
-                .filter(|s| s.encrypted)
+                .filter(|s| s.encrypted && !keep.contains(&s.id))
                 .map(|s| s.id)
                 .collect();
             ctl.matter.with_state(|s| {
